@@ -37,8 +37,15 @@ def representable(s, enc):
         return False
 
 
+TRICKY_BITS = ["19", "20", "195", "201", "199", "2019", "1", "9", "may", "x", "a", "#1", "No.", "<3", ".", "@", "www.", ".com",
+               "1q", "az", "qw", "er", "12", "3", "!", "i", "I", "й", "ц", "у", "к"]
+
+
 def gen_password(t, flavour):
     parts = []
+    if flavour.get("tricky") and t.chance(1, 3):
+        # adversarial mode: many short trigger fragments glued together, so patterns touch, overlap and repeat
+        return "".join(t.choice(TRICKY_BITS) for _ in range(t.between(2, 6)))
     n = t.between(1, 3)
     for _ in range(n):
         k = t.draw(14)
